@@ -229,6 +229,15 @@ def run_impl(case):
                     nb = before["mesh"]["n"] if "mesh" in before else before["n"]
                     if [int(k) for k in m1.n] != nb:
                         fail(f"{where}: scaling changed n")
+            if not isinstance(okres, df.Region):
+                # theorem history_keeps_len: no accepted step (quarter turns included) changes the number of cells
+                m1 = okres.mesh if isinstance(okres, df.Field) else okres
+                nb = before["mesh"]["n"] if "mesh" in before else before["n"]
+                cells = 1
+                for k in nb:
+                    cells *= int(k)
+                if len(m1) != cells:
+                    fail(f"{where}: the step changed the number of cells from {cells} to {len(m1)}")
         # --- the history proper follows the flag of the case
         st = res["inplace" if op["inplace"] else "copy"]
         tracked.append((twin, tc.snap(twin)))
